@@ -312,6 +312,18 @@ def check(case, ctx):
                 ctx.le("S: same rotation matrix", np.abs(o3.value[0] - o3.value[1]).max(), 5e-15, route=r)
                 ctx.le("S: rotation matrix = reference", np.abs(o3.value[0] - rq.refR(aa / na)).max(), 5e-14, route=r)
                 ctx.le("S: same rotate(v)", rel(o3.value[2], o3.value[3], np.linalg.norm(v)), 5e-15, route=r)
+        else:
+            # a quaternion kept as given (not of unit length): whatever matrix the class answers with, it is the matrix of *that* quaternion -
+            # the two storages of it give the same one (or both refuse)
+            o3 = [call(lambda X=X: (np.asarray(X.to_DCM(), float), np.asarray(X.rotate(v.copy()), float))) for X in (AS, A)]
+            if o3[0].ok and o3[1].ok:
+                sc_ = max(np.abs(o3[1].value[0]).max(), 1e-300)
+                ctx.le("S: same matrix for a quaternion kept non-unit (relative to the largest entry)", np.abs(o3[0].value[0] - o3[1].value[0]).max() / sc_, 1e-14,
+                       {"S": o3[0].value[0], "H": o3[1].value[0], "|q|": na}, route=r)
+                ctx.le("S: same rotate(v) for a quaternion kept non-unit", rel(o3[0].value[1], o3[1].value[1], max(np.linalg.norm(o3[1].value[1]), 1e-300)), 1e-14, route=r)
+            else:
+                ctx.ok("S: a quaternion kept non-unit is refused by to_DCM()/rotate() in both storages or in neither", o3[0].ok == o3[1].ok,
+                       {"S": o3[0].exc_name, "H": o3[1].exc_name}, route=r)
     rowsH = np.array([aa, bb, cc])
     rowsS = np.c_[rowsH[:, 1:], rowsH[:, 0]]
     out = call(lambda: (ahrs.QuaternionArray(rowsS.copy(), versors=versor, order="S"), ahrs.QuaternionArray(rowsH.copy(), versors=versor)))
